@@ -115,7 +115,7 @@ pub fn generate(ctx: &mut Ctx) {
         bi += 1;
     }
     // random pairs and triples
-    let n = ctx.by_tier(160_000u64, 2_000_000u64) / ctx.nshards;
+    let n = ctx.by_tier(160_000u64, 6_000_000u64) / ctx.nshards;
     for i in 0..n {
         let mut rng = ctx.rng("pairs", i);
         let mut o = gen::Opts::new(rng.chance(1, 2));
